@@ -137,6 +137,7 @@ pub fn gen_case(seed: u64, tier: Tier) -> (P, Vec<(u64, Op)>) {
 pub fn execute(p: &P, ops: &[(u64, Op)], seed: u64) -> RunOut {
     let mut out = RunOut::default();
     let mut w = World::new(p.wc.clone(), seed);
+    w.acc_twin = seed % 3 == 0;
     let n = p.wc.n;
     for a in 1..=n as u16 {
         w.spawn(a, p.wc.gen0);
